@@ -357,7 +357,7 @@ func runC15(c *ctx) {
 				c15Case{Op: "asciivar", Form: "a..b", Lo: hv, Hi: "7", Count: l})
 		}
 	}
-	reps := c.pick(1, 6)
+	reps := c.pick(4, 12)
 	c.parallel(len(cases)*reps, func(i int, _ *rng.R) {
 		cs := cases[i%len(cases)]
 		cs.Style += i / len(cases)
